@@ -384,14 +384,10 @@ impl AtomicBucket {
         let len = Layout::new::<usize>();
         let cap = Layout::new::<NonZeroUsize>();
 
-        // Safety: Align will always be a non-zero power of two and the
-        //         size will not overflow when rounded up
-        debug_assert!(
-            Layout::from_size_align(size_of::<u8>() * capacity.get(), align_of::<u8>()).is_ok()
-        );
-        let data = unsafe {
-            Layout::from_size_align_unchecked(size_of::<u8>() * capacity.get(), align_of::<u8>())
-        };
+        // A capacity above `isize::MAX` cannot be described by a `Layout` (building one
+        // unchecked would be undefined behaviour), so it is reported as a failed allocation
+        let data = Layout::from_size_align(size_of::<u8>() * capacity.get(), align_of::<u8>())
+            .map_err(|_| LassoError::new(LassoErrorKind::FailedAllocation))?;
 
         next.extend(len)
             .and_then(|(layout, _)| layout.extend(cap))
